@@ -133,6 +133,13 @@ def programs(seed, count):
                         ops.append(rnd.choice(["H" + k, "E" + k2, "D"]))
                 progs.append(",".join(ops))
             rnd.shuffle(progs)
+        elif rnd.random() < 0.12:
+            # sibling notifies: nothing but deliveries to two neighbouring keys, over and over, from every thread (readers share the
+            # lock: whatever a notify leaves behind in the tree -- a cache, a counter -- is shared with the notify next to it)
+            k1, k2 = rnd.choice([("a", "b"), ("a/a", "a/b"), ("a/b", "b/a")])
+            pre = ["S%s#1" % k1, "S%s#2" % k2]
+            nid = 3
+            progs = [",".join("N" + rnd.choice([k1, k2]) for _ in range(3)) for w in range(rnd.randrange(2, 5))]
         sched = "seed=%d" % rnd.randrange(1, 2 ** 31)
         if rnd.random() < 0.35:
             sched += " pct=%d len=%d" % (rnd.randrange(1, 4), rnd.randrange(20, 120))
@@ -191,7 +198,7 @@ def check(pid, tier, seed):
     from components import races
     count2 = {"quick": 1200, "thorough": 30000}[tier]
     script2, cfgs2 = programs("%s-torn" % seed, count2)
-    script2 = "\n".join((l.replace("X c", "X a", 1) + " accy=%d" % (500 + 700 * (k % 5))) if l.startswith("X c") else l for k, l in enumerate(script2.split("\n")))
+    script2 = "\n".join((l.replace("X c", "X a", 1) + " accy=%d" % [500, 1200, 2600, 6000, 15000, 40000][(k // 2) % 6]) if l.startswith("X c") else l for k, l in enumerate(script2.split("\n")))
     cfgs2 = {"a" + x[1:]: c + " accy=on" for x, c in cfgs2.items()}
     res.update(common.run_harness(races._race_build("concrouter_race", "observer/conc_router_harness.cpp", REPO_SRC), script2))
     cfgs.update(cfgs2)
